@@ -354,8 +354,7 @@ pub fn c19(seed: u64, budget: usize) -> Report {
     let parts: Vec<Report> = (0..32u64).into_par_iter().map(|th| {
         let mut rep = Report::new(); let mut r = Rng::new(seed ^ (th * 9176 + 29));
         for i in 0..(budget / 32 + 1) {
-            let gen9 = |r: &mut Rng| -> [f64; 9] { let mut a = [0.0; 9]; for (j, v) in a.iter_mut().enumerate() { *v = match i % 5 { 0 => r.range(-2.0, 2.0) as f64, 1 => if j % 4 == 0 { r.range(0.8, 2.0) as f64 } else { 0.0 }, 2 => if [1, 5, 6].contains(&j) { 1.0 } else { 0.0 },
-                3 => [0.2126, 0.7152, 0.0722, -0.1146, -0.3854, 0.5, 0.5, -0.4542, -0.0458][j] + (r.unit() as f64 - 0.5) * 1e-3, _ => (r.range(-2.0, 2.0) as f32) as f64 }; } a };
+            let gen9 = |r: &mut Rng| -> [f64; 9] { let v = if i % 5 == 4 { crate::gen::structured_matrix(r).iter().map(|x| (*x as f32) as f64).collect::<Vec<f64>>() } else { crate::gen::structured_matrix(r) }; let mut a = [0.0; 9]; a.copy_from_slice(&v); a };
             let a = gen9(&mut r); let b = gen9(&mut r); let v = [r.range(-2.0, 2.0) as f64, r.range(-2.0, 2.0) as f64, r.range(-2.0, 2.0) as f64]; let u = [r.range(-2.0, 2.0) as f64, r.range(-2.0, 2.0) as f64, r.range(-2.0, 2.0) as f64];
             let a32: Vec<f32> = a.iter().map(|x| *x as f32).collect(); let b32: Vec<f32> = b.iter().map(|x| *x as f32).collect();
             let ae: Vec<f64> = a32.iter().map(|x| *x as f64).collect(); let be: Vec<f64> = b32.iter().map(|x| *x as f64).collect();
